@@ -8,6 +8,7 @@ import (
 	"compress/gzip"
 	"fmt"
 	"io"
+	"os"
 	"strconv"
 	"strings"
 
@@ -168,9 +169,44 @@ func genF(r *vh.Rand) string {
 		enc, q, fs, ch, r.Intn(3), r.Intn(1<<30), strings.Join(ps, ","), r.Intn(2), 400)
 }
 
+// genR: a rule FILE (cmd, Quality, FlushSize incl. boundaries / missing) + a request + a body.
+func genR(r *vh.Rand) string {
+	f := genF(r) // reuse body / chunking / reader generation
+	kv := kvs(f[2:])
+	cmd := r.Pick("G", "B", "G", "B", "G", "B", "G", "B", "X", "m")
+	q := "4"
+	switch r.Intn(8) {
+	case 0:
+		q = r.Pick("-3", "-2", "-1", "0", "9", "10", "11", "12", "m", "100", "-100")
+	case 1, 2:
+		if cmd == "B" {
+			q = strconv.Itoa(r.Range(0, 11))
+		} else {
+			q = strconv.Itoa(r.Range(-2, 9))
+		}
+	}
+	var fs string
+	switch r.Intn(10) {
+	case 0, 1, 2:
+		fs = r.Pick("0", "1", "63", "64", "65", "4095", "4096", "4097", "-1", "-64", "m", "100000")
+	case 3:
+		fs = strconv.Itoa(r.Range(0, 70))
+	case 4:
+		fs = strconv.Itoa(r.Range(4090, 4100))
+	default:
+		fs = r.Pick("64", "100", "512", "1024", "4096", "777")
+	}
+	ae := r.Pick("gzip", "br", "gzip, br", "br, gzip", "gzip, br", "identity", "deflate, br", "GZIP, deflate")
+	return fmt.Sprintf("r cmd=%s;q=%s;fs=%s;ae=%s;chunks=%s;kind=%s;seed=%s;reads=%s;eofw=%s;max=%s",
+		cmd, q, fs, vh.Hex([]byte(ae)), kv["chunks"], kv["kind"], kv["seed"], kv["reads"], kv["eofw"], kv["max"])
+}
+
 func gen(r *vh.Rand) string {
-	if r.Chance(1, 2) {
+	switch r.Intn(3) {
+	case 0:
 		return genH(r)
+	case 1:
+		return genR(r)
 	}
 	return genF(r)
 }
@@ -356,6 +392,12 @@ func execF(rest string) string {
 	if err != nil {
 		return "err:newfilter"
 	}
+	return driveFilter(f, src, data, ps, mx, kv["enc"] == "g")
+}
+
+// driveFilter reads the filter with the cyclic buffer sizes ps until EOF / error / mx reads, records
+// every Read, then decompresses what was read and compares it with the source body.
+func driveFilter(f io.ReadCloser, src *chunkSource, data []byte, ps []int, mx int, isGzip bool) string {
 	var out bytes.Buffer
 	var recs []string
 	eof := 0
@@ -391,7 +433,7 @@ func execF(rest string) string {
 	f.Close()
 	if eof == 1 {
 		var rd io.Reader
-		if kv["enc"] == "g" {
+		if isGzip {
 			zr, err := gzip.NewReader(bytes.NewReader(out.Bytes()))
 			if err != nil {
 				rd = nil
@@ -425,12 +467,140 @@ func execF(rest string) string {
 	return fmt.Sprintf("r=%s;eof=%d;dec=%s", r, eof, dec)
 }
 
+
+// buildSource turns chunk sizes into a chunkSource over a deterministic body.
+func buildSource(kv map[string]string) (src *chunkSource, data []byte, ps []int, mx int, ok bool) {
+	kind, e3 := strconv.Atoi(kv["kind"])
+	seed, e4 := strconv.Atoi(kv["seed"])
+	mx, e5 := strconv.Atoi(kv["max"])
+	chunks, ok1 := ints(kv["chunks"])
+	ps, ok2 := ints(kv["reads"])
+	if e3 != nil || e4 != nil || e5 != nil || !ok1 || !ok2 || len(ps) == 0 {
+		return nil, nil, nil, 0, false
+	}
+	for _, p := range ps {
+		if p == 0 {
+			return nil, nil, nil, 0, false
+		}
+	}
+	total := 0
+	for _, c := range chunks {
+		total += c
+	}
+	if total > 1<<20 || mx > 100000 {
+		return nil, nil, nil, 0, false
+	}
+	data = body(kind, seed, total)
+	src = &chunkSource{eofw: kv["eofw"] == "1"}
+	off := 0
+	for _, c := range chunks {
+		src.chunks = append(src.chunks, data[off:off+c])
+		off += c
+	}
+	return src, data, ps, mx, true
+}
+
+func jsonField(name, v string) string {
+	if v == "m" {
+		return ""
+	}
+	return fmt.Sprintf(",\"%s\": %s", name, v)
+}
+
+// execR: rule FILE -> real loader -> rule table -> compressHandler -> installed filter.
+func execR(rest string) string {
+	kv := kvs(rest)
+	ae, okA := vh.UnHex(kv["ae"])
+	src, data, ps, mx, ok := buildSource(kv)
+	if !ok || !okA {
+		return "bad-op"
+	}
+	for _, k := range []string{"q", "fs"} {
+		if kv[k] != "m" {
+			if _, err := strconv.Atoi(kv[k]); err != nil {
+				return "bad-op"
+			}
+		}
+	}
+	cmd := ""
+	switch kv["cmd"] {
+	case "G":
+		cmd = "\"Cmd\": \"GZIP\""
+	case "B":
+		cmd = "\"Cmd\": \"BROTLI\""
+	case "X":
+		cmd = "\"Cmd\": \"DEFLATE\""
+	case "m":
+		cmd = "\"Note\": \"no cmd\""
+	default:
+		return "bad-op"
+	}
+	js := fmt.Sprintf("{\"Version\": \"verif\", \"Config\": {\"%s\": [{\"Cond\": \"default_t()\", \"Action\": {%s%s%s}}]}}",
+		product, cmd, jsonField("Quality", kv["q"]), jsonField("FlushSize", kv["fs"]))
+	fh, err := os.CreateTemp("", "verif-c54-*.json")
+	if err != nil {
+		return "err:tmpfile"
+	}
+	path := fh.Name()
+	fh.WriteString(js)
+	fh.Close()
+	defer os.Remove(path)
+	var m *mod_compress.ModuleCompress
+	load := "ok"
+	func() {
+		defer func() {
+			if e := recover(); e != nil {
+				load = "panic"
+			}
+		}()
+		var err error
+		m, err = mod_compress.VerifLoadRuleFile(path)
+		if err != nil {
+			load = "err"
+		}
+	}()
+	if load != "ok" {
+		return "load=" + load + ";enc=none;raw=na"
+	}
+	req := new(bfe_basic.Request)
+	req.HttpRequest = new(bfe_http.Request)
+	req.HttpRequest.Header = make(bfe_http.Header)
+	req.HttpRequest.Host = "www.example.org"
+	if len(ae) > 0 {
+		req.HttpRequest.Header.Set("Accept-Encoding", string(ae))
+	}
+	req.Route.Product = product
+	req.Session = new(bfe_basic.Session)
+	req.Context = make(map[interface{}]interface{})
+	res := new(bfe_http.Response)
+	res.StatusCode = 200
+	res.Header = make(bfe_http.Header)
+	res.Header.Set("Content-Length", strconv.Itoa(len(data)))
+	res.Body = src
+	m.VerifHandle(req, res)
+	kind, _, _ := mod_compress.VerifFilterState(res.Body)
+	if kind == "none" {
+		got, err := io.ReadAll(res.Body)
+		raw := "ok"
+		if err != nil || !bytes.Equal(got, data) || res.Header.GetDirect("Content-Encoding") != "" {
+			raw = "bad"
+		}
+		return "load=ok;enc=none;raw=" + raw
+	}
+	if ce := res.Header.GetDirect("Content-Encoding"); ce != kind {
+		return "load=ok;enc=" + kind + ";raw=na;ce-mismatch"
+	}
+	return "load=ok;enc=" + kind + ";raw=na;" + driveFilter(res.Body, src, data, ps, mx, kind == "gzip")
+}
+
 func exec(op string) string {
 	switch {
 	case strings.HasPrefix(op, "h "):
 		return execH(op[2:])
 	case strings.HasPrefix(op, "f "):
 		return execF(op[2:])
+	case strings.HasPrefix(op, "r "):
+		return execR(op[2:])
 	}
 	return "bad-op"
 }
